@@ -530,8 +530,8 @@ def search_histories(depth, copy_points=True, limit=None):
             if limit and n > limit: return n, len(distinct), fails
     return n, len(distinct), fails
 
-def bounded_histories(ctx):
-    depth = 4 if ctx.thorough else 3
+def bounded_histories(ctx, prefix='C06', depth=None):
+    depth = depth or (4 if ctx.thorough else 3)
     n, dist, fails = search_histories(depth)
     seen = {}
     for names, e in sorted(fails, key=lambda x: len(x[0])):
@@ -543,7 +543,7 @@ def bounded_histories(ctx):
                      rule='all append histories over a 12-node alphabet (one- and two-place predications over a,b,c,d,a1; world and access nodes) with a copy before the last append; distinct = distinct (constants, worlds) end states',
                      bound=f'depth <= {depth}', samples=[dict(history=list(m), failure=seen[m]) for m in mins] or [dict(history=['Fb', 'Fa'], note='example of a history explored; no failure found')], label='real-branch histories')
     for m in mins[:3]:
-        clause = 'C06.append.fresh-constant' if 'new_constant' in seen[m] else ('C06.append.fresh-world' if 'new_world' in seen[m] else 'C06.append.view')
+        clause = f'{prefix}.append.fresh-constant' if 'new_constant' in seen[m] else (f'{prefix}.append.fresh-world' if 'new_world' in seen[m] else f'{prefix}.append.view')
         ctx.bounded_failure(clause, f'real Branch violates freshness after {list(m)}: {seen[m]}', dict(history=list(m)), instance='/'.join(m))
 
 def replay_history(r):
